@@ -196,7 +196,7 @@ class Sym(object):
         d = tz(o)
         if self.z is None or d is None:
             return POISON
-        if ENG.branch(d == 0):
+        if _zero_possible(d):
             ENG.note_divzero()
             return POISON
         return Sym(self.z / d)
@@ -207,7 +207,7 @@ class Sym(object):
         a = tz(o)
         if self.z is None or a is None:
             return POISON
-        if ENG.branch(self.z == 0):
+        if _zero_possible(self.z):
             ENG.note_divzero()
             return POISON
         return Sym(a / self.z)
@@ -279,6 +279,22 @@ class Sym(object):
 POISON = Sym(None)
 
 
+def _zero_possible(d):
+    """fork on `d == 0`; a product is zero iff one of its factors is, which
+    keeps the feasibility queries linear (the incremental solver is weak on
+    non-linear arithmetic)"""
+    if z3.is_app(d) and d.decl().kind() == z3.Z3_OP_MUL:
+        for f in d.children():
+            if z3.is_rational_value(f):
+                if f.numerator_as_long() == 0:
+                    return True
+                continue
+            if _zero_possible(f):
+                return True
+        return False
+    return ENG.branch(d == 0)
+
+
 def is_poison(x):
     if isinstance(x, Sym):
         return x.z is None
@@ -315,17 +331,26 @@ def smax(*a):
     return r
 
 
+def _swap(a, b):
+    """deterministic structural ordering (term ids are not stable across
+    re-executions of a path, structural hashes and s-expressions are)"""
+    ha, hb = a.hash(), b.hash()
+    if ha != hb:
+        return ha > hb
+    return a.sexpr() > b.sexpr()
+
+
 def _zmax(a, b):
     """canonical max term: independent of the argument order, so that
     max(a, b) written in one kernel and max(b, a) in its duplicate are the
     same term (real max is symmetric)"""
-    if a.get_id() > b.get_id():
+    if _swap(a, b):
         a, b = b, a
     return z3.If(a >= b, a, b)
 
 
 def _zmin(a, b):
-    if a.get_id() > b.get_id():
+    if _swap(a, b):
         a, b = b, a
     return z3.If(a <= b, a, b)
 
@@ -448,9 +473,12 @@ class Engine(object):
         self.poison_compares += 1
 
     # ---- inputs -----------------------------------------------------
-    def fresh(self, name):
+    def fresh(self, name, integer=False):
         v = z3.Real(name)
         self.inputs.append((name, v))
+        if integer:
+            self.solver.add(z3.IsInt(v))
+            self.model = None
         return Sym(v)
 
     def const(self, x):
@@ -490,24 +518,33 @@ class Engine(object):
         return r
 
     def branch(self, cond):
-        c = z3.simplify(cond)
-        if z3.is_true(c):
-            return True
-        if z3.is_false(c):
-            return False
+        # The decision sequence must be identical on every re-execution of a
+        # path prefix.  z3.simplify orders commutative arguments by term id,
+        # which is not stable across re-executions, so the *unsimplified* term
+        # (built by the same Python operations in the same order, hence
+        # structurally identical) is the key; simplify is only used to
+        # recognise trivially true/false conditions.
+        c = cond
         neg = False
-        if z3.is_not(c):
+        while z3.is_not(c):
             c = c.arg(0)
-            neg = True
+            neg = not neg
+        cs = z3.simplify(c)
+        if z3.is_true(cs):
+            return not neg
+        if z3.is_false(cs):
+            return neg
         k = c.get_id()
         if k in self.lit:
             self.cache_hits += 1
             return self.lit[k] != neg
         self.decisions += 1
         if self.pos < len(self.prefix):
-            v = self.prefix[self.pos]
+            v, h = self.prefix[self.pos]
+            if h != c.hash():
+                raise Inconclusive("re-execution diverged from the recorded decision prefix")
             self.pos += 1
-            self.trace.append(v)
+            self.trace.append((v, h))
             self.solver.add(c if v else z3.Not(c))
             self.lit[k] = v
             self.keep.append(c)
@@ -545,7 +582,7 @@ class Engine(object):
                 self.shards.append((list(self.trace), self.nforks))
                 raise PathAbort()
             self.nforks += 1
-            self.work.append((self.trace + [False], self.nforks))
+            self.work.append((self.trace + [(False, c.hash())], self.nforks))
             v = True
             if guess is False:
                 self.model = model_other
@@ -556,8 +593,8 @@ class Engine(object):
         else:
             raise PathAbort()
         self.pos += 1
-        self.prefix.append(v)
-        self.trace.append(v)
+        self.prefix.append((v, c.hash()))
+        self.trace.append((v, c.hash()))
         self.solver.add(c if v else z3.Not(c))
         self.lit[k] = v
         self.keep.append(c)
@@ -993,12 +1030,18 @@ class ConcreteEngine(object):
         self.obligations = 0
         self.inputs = []
 
-    def fresh(self, name):
+    def fresh(self, name, integer=False):
         if name not in self.given:
             raise AssumptionFailed("missing input " + name)
         v = self.given[name]
         if isinstance(v, str):
-            v = float(Fraction(v))
+            v = Fraction(v)
+            if integer and v.denominator == 1:
+                # integer-typed user data (e.g. spike counts): numpy will
+                # build an integer array from it
+                self.inputs.append((name, int(v)))
+                return int(v)
+            v = float(v)
         self.inputs.append((name, v))
         return float(v)
 
